@@ -219,6 +219,40 @@ func (m *FragMap) ruleText(r *Rule, def string, rng *rand.Rand) string {
 	return r.T + ":" + p
 }
 
+// padRule returns a rule that describes no name of the universe: its pattern contains a label over an
+// alphabet (k j v u h 4 5 6 8) that no fragment of any map uses.  Loading such rules changes no expected
+// answer; they make the real trie / maps larger and shared with the universe's nodes.
+func (m *FragMap) padRule(def string, rng *rand.Rand) string {
+	const alpha = "kjvuh4568"
+	lab := func() string {
+		b := make([]byte, 1+rng.Intn(6))
+		for i := range b {
+			b[i] = alpha[rng.Intn(len(alpha))]
+		}
+		return string(b)
+	}
+	p := lab()
+	for i := rng.Intn(3); i > 0; i-- {
+		p = lab() + "." + p
+	}
+	switch rng.Intn(6) {
+	case 0:
+		return "full:" + p
+	case 1:
+		return "keyword:" + p
+	case 2:
+		return "regexp:^" + strings.ReplaceAll(p, ".", `\.`) + "$"
+	case 3:
+		return "regexp:" + strings.ReplaceAll(p, ".", `\.`)
+	case 4:
+		if def != "regexp" {
+			return p
+		}
+	}
+	// a domain rule below a label of the universe shares trie nodes with the universe's rules
+	return "domain:" + p + []string{"", "." + m.C, "." + m.B + "." + m.C, "." + m.E + m.B}[rng.Intn(4)]
+}
+
 func decorate(lines []string, rng *rand.Rand) string {
 	var sb strings.Builder
 	for _, l := range lines {
@@ -389,7 +423,6 @@ func ipOf(idx int) string  { return fmt.Sprintf("10.9.8.%d", idx) }
 func tgtOf(idx int) string { return fmt.Sprintf("target-%d.test", idx) }
 
 func replayBeh(idx int, b *Beh, rng *rand.Rand, env *plugEnv) {
-	n := len(b.Rules)
 	nm := len(fragMaps)
 	if job.MapsPer > 0 && job.MapsPer < nm {
 		nm = job.MapsPer
@@ -397,24 +430,39 @@ func replayBeh(idx int, b *Beh, rng *rand.Rand, env *plugEnv) {
 	for mk := 0; mk < nm; mk++ {
 		mi := (idx + mk) % len(fragMaps)
 		m := &fragMaps[mi]
-		txt := make([]string, n)
+		txt := make([]string, len(b.Rules))
+		vals := make([]int, len(b.Rules)) // the value of rule i is its number
 		for i := range b.Rules {
 			txt[i] = m.ruleText(&b.Rules[i], b.Def, rng)
+			vals[i] = i + 1
 		}
 		var run *Run
 		if job.TraceSample > 0 && (idx*len(fragMaps)+mi)%job.TraceSample == 0 {
 			run = &Run{Kind: "run", Src: "replay", Map: *m, Beh: b}
 			run.Events = append(run.Events, Ev{Ev: "New", Def: b.Def})
 			for i, s := range txt {
-				run.Events = append(run.Events, Ev{Ev: "Add", S: s, V: i + 1})
+				run.Events = append(run.Events, Ev{Ev: "Add", S: s, V: vals[i]})
+			}
+		} else if rng.Intn(3) == 0 {
+			// semantics-preserving padding: rules that describe no name of the universe (values >= 100),
+			// inserted anywhere (the relative order of the behaviour's rules is kept)
+			for k := []int{1, 5, 25}[rng.Intn(3)]; k > 0; k-- {
+				at := rng.Intn(len(txt) + 1)
+				txt = append(txt, "")
+				copy(txt[at+1:], txt[at:])
+				txt[at] = m.padRule(b.Def, rng)
+				vals = append(vals, 0)
+				copy(vals[at+1:], vals[at:])
+				vals[at] = 100 + k
 			}
 		}
+		n := len(txt)
 
 		// --- API 1: MixMatcher.Add with values
 		l, err := guard(func() (lookup, error) {
 			mm := intMatcher(b.Def)
 			for i, s := range txt {
-				if err := mm.Add(s, i+1); err != nil {
+				if err := mm.Add(s, vals[i]); err != nil {
 					return nil, err
 				}
 			}
@@ -430,7 +478,7 @@ func replayBeh(idx int, b *Beh, rng *rand.Rand, env *plugEnv) {
 			mm := intMatcher(b.Def)
 			lines := make([]string, n)
 			for i, s := range txt {
-				lines[i] = fmt.Sprintf("%s %d", s, i+1)
+				lines[i] = fmt.Sprintf("%s %d", s, vals[i])
 			}
 			if rng.Intn(2) == 0 {
 				if err := domain.LoadFromTextReader[int](mm, strings.NewReader(decorate(lines, rng)), valueParse); err != nil {
@@ -453,7 +501,7 @@ func replayBeh(idx int, b *Beh, rng *rand.Rand, env *plugEnv) {
 			mm.SetDefaultMatcher(b.Def)
 			lines := make([]string, n)
 			for i, s := range txt {
-				lines[i] = s + " " + ipOf(i+1) + " 2001:db8::" + strconv.Itoa(i+1)
+				lines[i] = s + " " + ipOf(vals[i]) + " 2001:db8::" + strconv.Itoa(vals[i])
 			}
 			if err := domain.LoadFromTextReader[*hosts.IPs](mm, strings.NewReader(decorate(lines, rng)), hosts.ParseIPs); err != nil {
 				return nil, err
@@ -525,7 +573,7 @@ func replayBeh(idx int, b *Beh, rng *rand.Rand, env *plugEnv) {
 				k := rng.Intn(n + 1)
 				lines := make([]string, n)
 				for i, s := range txt {
-					lines[i] = s + " " + ipOf(i+1)
+					lines[i] = s + " " + ipOf(vals[i])
 				}
 				args := &hostsplugin.Args{Entries: lines[:k]}
 				fn, err := env.writeTmp(decorate(lines[k:], rng))
@@ -560,7 +608,7 @@ func replayBeh(idx int, b *Beh, rng *rand.Rand, env *plugEnv) {
 				k := rng.Intn(n + 1)
 				lines := make([]string, n)
 				for i, s := range txt {
-					lines[i] = s + " " + tgtOf(i+1)
+					lines[i] = s + " " + tgtOf(vals[i])
 				}
 				fn, err := env.writeTmp(decorate(lines[k:], rng))
 				if err != nil {
@@ -586,9 +634,9 @@ func replayBeh(idx int, b *Beh, rng *rand.Rand, env *plugEnv) {
 					if rec.name == name {
 						return false, 0, ""
 					}
-					for i := 1; i <= n; i++ {
-						if rec.name == dns.Fqdn(tgtOf(i)) {
-							return true, i, ""
+					for _, v := range vals {
+						if rec.name == dns.Fqdn(tgtOf(v)) {
+							return true, v, ""
 						}
 					}
 					return true, -1, ""
